@@ -75,21 +75,25 @@ func fmtF(f float64) string {
 // bind x to exactly the double f: either through the API (float64 kind) or, for
 // values that have an integer / short literal form, through source text
 func (g *gen) setX(f float64) string {
-	if g.r.Intn(4) == 0 && !math.IsNaN(f) && !math.IsInf(f, 0) && !(f == 0 && math.Signbit(f)) {
+	how, _ := g.setXk(f, false)
+	return how
+}
+
+// setXk also reports whether x was bound through a positive integer literal that fits int64:
+// otto keeps such a value as an int64 payload (parseNumberLiteral's ParseInt succeeds), and
+// Value.string() prints every digit of it.  A negated literal goes through unary minus and is a float64.
+func (g *gen) setXk(f float64, forceLit bool) (string, bool) {
+	if (forceLit || g.r.Intn(4) == 0) && !math.IsNaN(f) && !math.IsInf(f, 0) && !(f == 0 && math.Signbit(f)) {
 		lit := JSNum(f)
 		if v, err := strconv.ParseFloat(strings.Trim(lit, "()"), 64); err == nil && v == f {
 			if o := RunJS(g.vm, "var x = "+lit+";"); ErrClass(o) == 0 {
-				return "x=" + lit
+				intlit := f >= 0 && f < 9223372036854775808 && strings.Trim(lit, "0123456789") == ""
+				return "x=" + lit, intlit
 			}
 		}
 	}
 	Must(g.vm.Set("x", f))
-	return "x=" + fmtF(f)
-}
-
-func big10(f float64) bool {
-	e := math.Log10(math.Abs(f))
-	return e >= 21 || e < -6
+	return "x=" + fmtF(f), false
 }
 
 // ---------- doubles ----------
@@ -119,7 +123,15 @@ func (g *gen) sign(f float64) float64 {
 
 func (g *gen) double() (float64, string) {
 	r := g.r
-	switch r.Intn(16) {
+	switch r.Intn(17) {
+	case 16:
+		// integers from 2^53 up that still print as plain digits with %.17g (below 1e17) resp. fit int64:
+		// bound through an integer literal they are int64 payloads inside otto
+		v := float64(int64(1)<<53 + r.Int63n(100000000000000000-int64(1)<<53))
+		if r.Intn(4) == 0 {
+			v = float64(r.Int63n(1 << 53))
+		}
+		return v, "int-literal"
 	case 0, 1:
 		return math.Float64frombits(r.Uint64()), "random-bits"
 	case 2:
@@ -184,7 +196,9 @@ func (g *gen) double() (float64, string) {
 
 func intDouble(g *gen) (float64, string) {
 	r := g.r
-	switch r.Intn(8) {
+	switch r.Intn(9) {
+	case 8:
+		return float64(int64(1)<<53 + r.Int63n(100000000000000000-int64(1)<<53)), "int-literal"
 	case 0:
 		return g.sign(float64(r.Int63n(1 << 53))), "integer"
 	case 1:
@@ -574,6 +588,11 @@ func literalSafe(s string) bool {
 			if dots > 1 || digs == 0 {
 				return false
 			}
+			// 0 followed by a digit is a legacy octal integer (B.1.1), complete before any '.':
+			// "0300041.E+11" is (0300041).E + 11, an expression
+			if len(s) > 1 && s[0] == '0' && s[1] >= '0' && s[1] <= '9' {
+				return false
+			}
 		default:
 			return false
 		}
@@ -589,14 +608,14 @@ func literalSafe(s string) bool {
 // ---------- cases ----------
 
 func (g *gen) caseStr(f float64, bucket string) {
-	how := g.setX(f)
+	how, intlit := g.setXk(f, bucket == "int-literal" || bucket == "pinned-intlit")
 	res, show := g.strRes("String(x)")
 	same := g.boolRes(`(function(){var a = String(x); return a === ''+x && a === x.toString() && a === x.toString(10) && a === x.toString(undefined) && a === [x].join() && a === new Number(x).toString() && a === (x).toPrecision() && a === String(new Number(x))})()`)
 	back, ok, bshow := g.numRes("Number(String(x))")
 	if !ok {
 		back = 0x7FF0000000000001 // never equal to a model value
 	}
-	g.env.Add(fmt.Sprintf("CStr %s %s %s %s %d", Cdouble(f), Cbool(big10(f)), res, Cbool(same), back),
+	g.env.Add(fmt.Sprintf("CStr %s %s %s %s %d", Cdouble(f), Cbool(intlit), res, Cbool(same), back),
 		fmt.Sprintf("str %s; String(x) -> %s ; all ToString routes agree=%v ; Number(String(x)) -> %s", how, show, same, bshow), "tostring/"+bucket, nontrivialDouble(f))
 }
 
@@ -606,7 +625,7 @@ func nontrivialDouble(f float64) bool {
 
 func (g *gen) caseRadix(f float64, bucket string) {
 	r := g.r
-	how := g.setX(f)
+	how, intlit := g.setXk(f, bucket == "int-literal")
 	radix := r.Intn(35) + 2
 	js, cq := strconv.Itoa(radix), fmt.Sprintf("(Some %d)", radix)
 	switch r.Intn(12) {
@@ -621,7 +640,7 @@ func (g *gen) caseRadix(f float64, bucket string) {
 		js = "'" + strconv.Itoa(radix) + "'" // ToInteger(ToNumber("16"))
 	}
 	res, show := g.strRes("x.toString(" + js + ")")
-	g.env.Add(fmt.Sprintf("CRadix %s %s %s %s", Cdouble(f), cq, Cbool(big10(f)), res),
+	g.env.Add(fmt.Sprintf("CRadix %s %s %s %s", Cdouble(f), cq, Cbool(intlit), res),
 		fmt.Sprintf("radix %s; x.toString(%s) -> %s", how, js, show), "radix/"+bucket, true)
 }
 
@@ -658,7 +677,7 @@ func (g *gen) caseFixed(f float64, bucket string) {
 		}
 	}
 	res, show := g.strRes("x.toFixed(" + js + ")")
-	g.env.Add(fmt.Sprintf("CFixed %s %s %s %s", Cdouble(f), Cz(int64(v)), Cbool(big10(f)), res),
+	g.env.Add(fmt.Sprintf("CFixed %s %s %s", Cdouble(f), Cz(int64(v)), res),
 		fmt.Sprintf("fixed %s; x.toFixed(%s) -> %s", how, js, show), "tofixed/"+bucket, true)
 }
 
@@ -765,7 +784,7 @@ func (g *gen) caseChain(kind int, f float64, bucket string) {
 	if !ok {
 		bits = 0x7FF0000000000001
 	}
-	g.env.Add(fmt.Sprintf("CChain %d %s %d %s %d", kind, Cdouble(f), arg, Cbool(big10(f)), bits),
+	g.env.Add(fmt.Sprintf("CChain %d %s %d %d", kind, Cdouble(f), arg, bits),
 		fmt.Sprintf("chain %s; %s -> %s", how, src, show), fmt.Sprintf("chain%d/%s", kind, bucket), true)
 }
 
@@ -775,11 +794,13 @@ func runC06(env *Env) {
 	g := &gen{env: env, vm: otto.New(), r: env.Rng}
 	r := env.Rng
 
-	// pinned witnesses of the listed findings, first on every run
+	// pinned witnesses of the listed findings (open ones, and repaired ones as regression cases
+	// that now expect the ES5 result), first on every run
 	pinStr := []float64{999999999999999868928, math.Nextafter(1e-6, 0)}
 	for _, f := range pinStr {
 		g.caseStr(f, "pinned")
 	}
+	g.caseStr(89634963422590256, "pinned-intlit")
 	pin := func(f float64, do func()) { Must(g.vm.Set("x", f)); do() }
 	addRes := func(coq, js, bucket string) {
 		res, show := g.strRes(js)
@@ -789,9 +810,9 @@ func runC06(env *Env) {
 		addRes("CRadix "+Cdouble(math.Ldexp(1, 70))+" (Some 16) false %s", "x.toString(16)", "radix/pinned")
 	})
 	pin(0.5, func() { addRes("CRadix "+Cdouble(0.5)+" (Some 2) false %s", "x.toString(2)", "radix/pinned") })
-	pin(2.5, func() { addRes("CFixed "+Cdouble(2.5)+" 0 false %s", "x.toFixed(0)", "tofixed/pinned") })
+	pin(2.5, func() { addRes("CFixed "+Cdouble(2.5)+" 0 %s", "x.toFixed(0)", "tofixed/pinned") })
 	pin(math.Copysign(0, -1), func() {
-		addRes("CFixed "+Cdouble(math.Copysign(0, -1))+" 2 false %s", "x.toFixed(2)", "tofixed/pinned")
+		addRes("CFixed "+Cdouble(math.Copysign(0, -1))+" 2 %s", "x.toFixed(2)", "tofixed/pinned")
 	})
 	pin(1.5, func() { addRes("CExp "+Cdouble(1.5)+" (Some 3) %s", "x.toExponential(3)", "toexponential/pinned") })
 	pin(math.Inf(1), func() {
